@@ -1,6 +1,7 @@
 package mon
 
 import (
+	"bytes"
 	"encoding/json"
 	"fmt"
 	"sort"
@@ -212,6 +213,38 @@ func (r *c13Run) checkIndexes(what string) {
 		}
 		if o.Online && (o.DelegateAmount.LT(threshold) || o.DelegateAmount.GT(max)) {
 			r.res.Violate("C13/stake-out-of-bounds", "%s: online oracle %s has recorded stake %s outside [%s, %s]", what, addr, o.DelegateAmount, threshold, max)
+		}
+	}
+}
+
+// genesisRoundTrip: export, wipe and import of the bridge module on a branch (a restart from an exported
+// genesis). The registry is part of what has to survive: every record, online or not, and both indexes,
+// byte for byte; an offline oracle that is dropped could never withdraw its stake, and its bridger and external
+// address would be free for somebody else.
+func (r *c13Run) genesisRoundTrip(what string) {
+	_, diffs, err := r.b.GenesisRoundTrip()
+	if err != nil {
+		r.res.Violate("C13/genesis-round-trip-failed", "%s: export / import of the %s module: %v", what, r.b.Name, err)
+		return
+	}
+	r.res.Count("genesis_round_trips", 1)
+	offline := 0
+	for _, m := range r.os {
+		if rec, ok := r.b.K.GetOracle(r.c.Ctx, m.o.Oracle.Acc()); ok && !rec.Online {
+			offline++
+		}
+	}
+	if offline > 0 {
+		r.res.Count("genesis_round_trips_with_an_offline_oracle", 1)
+	}
+	for _, d := range diffs {
+		if len(d.Key) == 0 {
+			continue
+		}
+		for name, p := range map[string][]byte{"record": crosschaintypes.OracleKey, "bridger-index": crosschaintypes.OracleAddressByBridgerKey, "external-index": crosschaintypes.OracleAddressByExternalKey} {
+			if bytes.HasPrefix(d.Key, p) {
+				r.res.Violate("C13/registry-changed-by-genesis-round-trip/"+name, "%s: after export and import of the module's genesis the oracle %s entry %x differs: before %x (present %v), after %x (present %v); %d oracle(s) offline at the time", what, name, d.Key, d.A, d.InA, d.B, d.InB, offline)
+			}
 		}
 	}
 }
@@ -627,6 +660,9 @@ func (r *c13Run) run() {
 			}
 		}
 		r.checkIndexes(fmt.Sprintf("step %d", step))
+		if step%16 == 15 {
+			r.genesisRoundTrip(fmt.Sprintf("step %d", step))
+		}
 	}
 	if r.res.Inconclusive != "" {
 		return
